@@ -61,6 +61,9 @@ type harness struct {
 	// faults: the removal callback panics for key "b" and 'U' operations pass a key that cannot be hashed; the calling
 	// thread recovers. A caller's fault stays with that caller: the other threads' operations still complete.
 	faults bool
+	// cbYield: a removal callback is registered that gives up the processor (a user callback may do anything): whatever
+	// the cache does around the callback is then interleaved with the other threads
+	cbYield bool
 }
 
 func (h harness) String() string {
@@ -71,6 +74,9 @@ func (h harness) String() string {
 			q = append(q, o.String())
 		}
 		p = append(p, "["+strings.Join(q, " ")+"]")
+	}
+	if h.cbYield {
+		return fmt.Sprintf("callback-yields cap=%d prefill=%v %s", h.cap, h.prefill, strings.Join(p, " || "))
 	}
 	if h.faults {
 		return fmt.Sprintf("faults(callback panics for b; unhashable keys) cap=%d prefill=%v %s", h.cap, h.prefill, strings.Join(p, " || "))
@@ -107,6 +113,9 @@ var plainDump = strings.NewReplacer("[", "", "]", "")
 
 func (h harness) setup(st *execState) []func() {
 	st.lru = valid.NewLRU(h.cap)
+	if h.cbYield {
+		st.lru.SetDelCallBackFn(func(k, v interface{}) { vsched.Yield() })
+	}
 	if h.faults {
 		st.lru.SetDelCallBackFn(func(k, v interface{}) {
 			if k == "b" {
@@ -727,6 +736,7 @@ func run(c *runner.Ctx) {
 		bound int
 		gen   func(emit func(progs [][]opk))
 		cfgs  []cfgT
+		cb    bool
 	}
 	pairs := func(ps [][]opk) func(emit func([][]opk)) {
 		return func(emit func([][]opk)) {
@@ -776,30 +786,30 @@ func run(c *runner.Ctx) {
 	if !race {
 		if c.Thorough() {
 			plans = []plan{
-				{"H2x2-unbounded", -1, pairs(p2), cfgs},
-				{"H3x1-unbounded", -1, triples(p1), cfgs},
-				{"H2x3-bound3", 3, h2x3, cfgs[1:7]},
-				{"H3x2-bound2", 2, triples(r2), []cfgT{{1, nil, 0}, {2, []string{"a"}, 0}, {2, []string{"a", "b"}, 0}}},
-				{"H4x1-bound3", 3, quads(p1), cfgs[:9]},
+				{"H2x2-unbounded", -1, pairs(p2), cfgs, false},
+				{"H3x1-unbounded", -1, triples(p1), cfgs, false},
+				{"H2x3-bound3", 3, h2x3, cfgs[1:7], false},
+				{"H3x2-bound2", 2, triples(r2), []cfgT{{1, nil, 0}, {2, []string{"a"}, 0}, {2, []string{"a", "b"}, 0}}, false},
+				{"H4x1-bound3", 3, quads(p1), cfgs[:9], false},
 			}
 		} else {
 			plans = []plan{
-				{"H2x2-bound2", 2, pairs(p2), cfgs},
-				{"H3x1-bound3", 3, triples(p1), cfgs},
-				{"H2x3-bound2", 2, h2x3, cfgs[1:2]},
-				{"H4x1-bound1", 1, quads(r1), cfgs[:3]},
+				{"H2x2-bound2", 2, pairs(p2), cfgs, false},
+				{"H3x1-bound3", 3, triples(p1), cfgs, false},
+				{"H2x3-bound2", 2, h2x3, cfgs[1:2], false},
+				{"H4x1-bound1", 1, quads(r1), cfgs[:3], false},
 			}
 		}
 	} else {
 		if c.Thorough() {
 			plans = []plan{
-				{"H2x2-bound2", 2, pairs(p2), cfgs[:6]},
-				{"H3x1-bound2", 2, triples(p1), cfgs[:6]},
+				{"H2x2-bound2", 2, pairs(p2), cfgs[:6], false},
+				{"H3x1-bound2", 2, triples(p1), cfgs[:6], false},
 			}
 		} else {
 			plans = []plan{
-				{"H2x1-unbounded", -1, pairs(p1), cfgs},
-				{"H2x2-bound1", 1, pairs(p2), cfgs[1:2]},
+				{"H2x1-unbounded", -1, pairs(p1), cfgs, false},
+				{"H2x2-bound1", 1, pairs(p2), cfgs[1:2], false},
 			}
 		}
 	}
@@ -819,6 +829,15 @@ func run(c *runner.Ctx) {
 			})
 		}
 	}
+	// with a removal callback that yields (both modes)
+	cbCfgs := []cfgT{{1, []string{"a"}, 0}, {2, []string{"a", "b"}, 0}}
+	if race {
+		plans = append(plans, plan{"H2x2-bound1-callback-yields", 1, pairs(r2), cbCfgs[:1], true})
+	} else if c.Thorough() {
+		plans = append(plans, plan{"H2x2-bound3-callback-yields", 3, pairs(p2), cbCfgs, true}, plan{"H3x1-bound3-callback-yields", 3, triples(p1), cbCfgs, true})
+	} else {
+		plans = append(plans, plan{"H2x2-bound2-callback-yields", 2, pairs(r2), cbCfgs, true})
+	}
 	for _, pl := range plans {
 		for _, cf := range pl.cfgs {
 			c.Space(fmt.Sprintf("%s%s cap=%d prefill=%v warm=%d", pfx, pl.name, cf.cap, cf.prefill, cf.warm))
@@ -826,7 +845,7 @@ func run(c *runner.Ctx) {
 				if !c.Take() {
 					return
 				}
-				h := harness{cap: cf.cap, prefill: cf.prefill, progs: progs, warm: cf.warm}
+				h := harness{cap: cf.cap, prefill: cf.prefill, progs: progs, warm: cf.warm, cbYield: pl.cb}
 				st := exploreHarness(c, h, pl.bound, race, linCache, deadline)
 				_ = st
 				c.Sample(func() interface{} {
